@@ -14,6 +14,9 @@ PATTERNS = {
     "Media": "projects/{project}/mediaTypes/{type}",
     "Export": "exports/{format}~{list}",
     "Any": "*",
+    # variable names with digits and capitals
+    "Endpoint": "networks/{network}/ranges/{ipv4_range}",
+    "Asset": "stores/{storeId}/assets/{asset_2}",
 }
 
 
@@ -37,9 +40,20 @@ def files():
         rd.type = typ
         rd.pattern.append(pat)
     G.add_message(fd, "Section", [G.F("curator", 1, G.T.TYPE_STRING, resource_ref="lab.example.com/Curator")])
+    # a resource message and a referenced definition that are visible only BELOW the value message of a map field
+    rd = fd.options.Extensions[resource_pb2.resource_definition].add()
+    rd.type = "lab.example.com/Binder"
+    rd.pattern.append("binders/{binder}")
+    G.add_message(fd, "Leaflet", [G.F("name", 1, G.T.TYPE_STRING)], resource=("lab.example.com/Leaflet", "leaflets/{leaflet}"))
+    G.add_message(fd, "TagValue", [G.F("leaflet", 1, G.T.TYPE_MESSAGE, type_name=".acme.lab.v1.Leaflet"), G.F("binder", 2, G.T.TYPE_STRING, resource_ref="lab.example.com/Binder")])
+    tagged = G.add_message(fd, "Tagged")
+    te = tagged.nested_type.add(name="TagsEntry")
+    te.field.append(G.F("key", 1, G.T.TYPE_STRING)); te.field.append(G.F("value", 2, G.T.TYPE_MESSAGE, type_name=".acme.lab.v1.TagValue"))
+    te.options.map_entry = True
+    tagged.field.append(G.F("tags", 1, G.T.TYPE_MESSAGE, label=G.REPEATED, type_name=".acme.lab.v1.Tagged.TagsEntry"))
     G.add_message(fd, "Wing", [G.F("sections", 1, G.T.TYPE_MESSAGE, label=G.REPEATED, type_name=".acme.lab.v1.Section")])
     G.add_message(fd, "Req", [G.F("name", 1, G.T.TYPE_STRING), G.F("publisher_ref", 41, G.T.TYPE_STRING, resource_ref="lab.example.com/Publisher"),
-                              G.F("wing", 43, G.T.TYPE_MESSAGE, type_name=".acme.lab.v1.Wing"),
+                              G.F("wing", 43, G.T.TYPE_MESSAGE, type_name=".acme.lab.v1.Wing"), G.F("tagged", 45, G.T.TYPE_MESSAGE, type_name=".acme.lab.v1.Tagged"),
                               G.F("project_ref", 44, G.T.TYPE_STRING, resource_ref="cloudresourcemanager.googleapis.com/Project"),
                               G.F("author_ref", 42, G.T.TYPE_STRING, resource_ref="lab.example.com/Author")] +
                   [G.F(f"r{i}", i + 2, G.T.TYPE_STRING, resource_ref=f"lab.example.com/{n}") for i, n in enumerate(PATTERNS)] +
@@ -133,7 +147,9 @@ def scenarios():
                         # ... and the two that are visible only through the result type of the long-running MakeReport
                         ("report", {"report": "r1"}), ("finding", {"finding": "f1"}),
                         # ... the one referenced two levels down, and the API's own declaration of a "common" resource type
-                        ("curator", {"curator": "c1"}), ("project", {"project": "p1"})):
+                        ("curator", {"curator": "c1"}), ("project", {"project": "p1"}),
+                        # ... and the two visible only below a map value
+                        ("leaflet", {"leaflet": "l1"}), ("binder", {"binder": "b1"})):
             cases += 1
             if not (hasattr(C, f"{nm}_path") and hasattr(C, f"parse_{nm}_path") and hasattr(lab_v1.LabAsyncClient, f"parse_{nm}_path")):
                 failures.append({"resource": nm, "what": "no path helpers for a referenced file-level resource definition"})
